@@ -87,6 +87,14 @@ DIRECTED = [
     {"grid": [2, 1, 1], "chunk": 64, "rem": [63, 63, 63], "minishard_bits": 0,
      "shard_bits": 1, "preshift_bits": 0, "minishard_index_encoding": "raw",
      "data_encoding": "raw", "data_type": "uint64", "num_channels": 1},
+    # a chunk size that is not a power of two (49: positions are found by a real division)
+    {"grid": [8, 2, 1], "chunk": 49, "rem": [0, 3, 48], "minishard_bits": 1, "shard_bits": 1,
+     "preshift_bits": 0, "minishard_index_encoding": "raw", "data_encoding": "raw",
+     "data_type": "uint8", "num_channels": 1},
+    # a small border chunk stored just before a chunk of 2 MiB in the same minishard
+    {"grid": [2, 2, 1], "chunk": 64, "rem": [0, 63, 63], "minishard_bits": 0,
+     "shard_bits": 0, "preshift_bits": 0, "minishard_index_encoding": "raw",
+     "data_encoding": "raw", "data_type": "uint64", "num_channels": 1},
 ]
 
 
